@@ -371,84 +371,89 @@ pub(crate) fn recv_timeout_sync<T: Send>(
 ) -> Result<T, RecvErrorTimeout> {
   let start_time = Instant::now();
 
-  // First, try a non-blocking receive.
-  match receiver.shared.try_recv_core() {
-    Ok(item) => return Ok(item),
-    Err(TryRecvError::Disconnected) => return Err(RecvErrorTimeout::Disconnected),
-    Err(TryRecvError::Empty) => { /* Continue to blocking path */ }
-  }
+  loop {
+    // --- Phase 1: Attempt a non-blocking receive ---
+    match receiver.shared.try_recv_core() {
+      Ok(item) => return Ok(item),
+      Err(TryRecvError::Disconnected) => return Err(RecvErrorTimeout::Disconnected),
+      Err(TryRecvError::Empty) => { /* Continue to blocking path */ }
+    }
 
-  // Declare state and waiter exactly once on the stack - no per-iteration allocation.
-  let done_flag = AtomicU8::new(STATE_WAITING);
-  let done_ptr = &done_flag as *const AtomicU8;
-  let waiter = SyncWaiter {
-    thread: thread::current(),
-    state: done_ptr,
-  };
+    // --- Phase 2: (Re-)arm a waiter ---
+    // A sender that wakes a waiter unlinks it first, so a waiter that was woken
+    // but lost the item to another receiver must enqueue a fresh record:
+    // otherwise nobody would wake it again before the deadline.
+    let done_flag = AtomicU8::new(STATE_WAITING);
+    let done_ptr = &done_flag as *const AtomicU8;
+    let waiter = SyncWaiter {
+      thread: thread::current(),
+      state: done_ptr,
+    };
 
-  // Lock once to enqueue the waiter, with a final pre-park re-check.
-  {
-    let mut guard = receiver.shared.internal.lock();
-
-    if !guard.queue.is_empty()
-      || (receiver.shared.capacity == 0
-        && (!guard.waiting_sync_senders.is_empty() || !guard.waiting_async_senders.is_empty()))
+    // --- Phase 3: Lock, re-check, and commit to parking ---
     {
-      drop(guard);
-      match receiver.shared.try_recv_core() {
-        Ok(item) => return Ok(item),
-        Err(TryRecvError::Disconnected) => return Err(RecvErrorTimeout::Disconnected),
-        Err(TryRecvError::Empty) => {}
+      let mut guard = receiver.shared.internal.lock();
+
+      if !guard.queue.is_empty()
+        || (receiver.shared.capacity == 0
+          && (!guard.waiting_sync_senders.is_empty() || !guard.waiting_async_senders.is_empty()))
+      {
+        drop(guard);
+        if start_time.elapsed() >= timeout {
+          // One last attempt so an available item is never reported as a timeout.
+          return match receiver.shared.try_recv_core() {
+            Ok(item) => Ok(item),
+            Err(TryRecvError::Disconnected) => Err(RecvErrorTimeout::Disconnected),
+            Err(TryRecvError::Empty) => Err(RecvErrorTimeout::Timeout),
+          };
+        }
+        continue; // Loop to retry receive.
       }
-    } else {
+
       if guard.sender_count == 0 {
         return Err(RecvErrorTimeout::Disconnected);
       }
 
       guard.waiting_sync_receivers.push_back(waiter);
     }
-  }
 
-  loop {
-    let elapsed = start_time.elapsed();
-    if elapsed >= timeout {
-      // Attempt atomic cancellation.
-      match done_flag.compare_exchange(
-        STATE_WAITING,
-        STATE_CANCELLED,
-        Ordering::SeqCst,
-        Ordering::SeqCst,
-      ) {
-        Ok(_) => {
-          // Eagerly unlink so the stack frame can safely return.
-          let mut guard = receiver.shared.internal.lock();
-          guard.waiting_sync_receivers.retain(|w| w.state != done_ptr);
-          return Err(RecvErrorTimeout::Timeout);
-        }
-        Err(_) => {
-          // SUCCESS or CLOSED: a sender committed the handoff concurrently or channel closed. Must complete.
-          match receiver.shared.try_recv_core() {
-            Ok(item) => return Ok(item),
-            Err(TryRecvError::Disconnected) => return Err(RecvErrorTimeout::Disconnected),
-            Err(TryRecvError::Empty) => unreachable!("state was finished but channel empty"),
+    // --- Phase 4: Wait until signalled or until the deadline ---
+    loop {
+      // Check if a sender committed the handoff (or the channel closed).
+      let st = done_flag.load(Ordering::Acquire);
+      if (st & 0x01) != 0 {
+        break;
+      }
+
+      let elapsed = start_time.elapsed();
+      if elapsed >= timeout {
+        // Attempt atomic cancellation.
+        match done_flag.compare_exchange(
+          STATE_WAITING,
+          STATE_CANCELLED,
+          Ordering::SeqCst,
+          Ordering::SeqCst,
+        ) {
+          Ok(_) => {
+            // Eagerly unlink so the stack frame can safely return.
+            let mut guard = receiver.shared.internal.lock();
+            guard.waiting_sync_receivers.retain(|w| w.state != done_ptr);
+            return Err(RecvErrorTimeout::Timeout);
           }
+          // SUCCESS or CLOSED: a sender committed the handoff concurrently or
+          // the channel closed. Go back to Phase 1 to complete.
+          Err(_) => break,
         }
       }
+
+      thread::park_timeout(timeout - elapsed);
     }
 
-    let remaining_timeout = timeout - elapsed;
-    thread::park_timeout(remaining_timeout);
-
-    // Check if a sender committed the handoff.
-    let st = done_flag.load(Ordering::Acquire);
-    if (st & 0x01) != 0 {
-      match receiver.shared.try_recv_core() {
-        Ok(item) => return Ok(item),
-        Err(TryRecvError::Disconnected) => return Err(RecvErrorTimeout::Disconnected),
-        Err(TryRecvError::Empty) => {} // Spurious wakeup - loop to re-check timeout
-      }
+    // Signalled. If the channel was closed and our record is still linked,
+    // unlink it before the stack slot is reused by the next iteration.
+    if (done_flag.load(Ordering::Acquire) & 0x02) == 0 {
+      let mut guard = receiver.shared.internal.lock();
+      guard.waiting_sync_receivers.retain(|w| w.state != done_ptr);
     }
-    // Spurious wakeup with no handoff committed - loop to re-check timeout without
-    // re-acquiring the lock or re-enqueuing.
   }
 }
